@@ -359,9 +359,22 @@ impl RefZone {
 
     /// Address records of `target` as the zone knows them.
     /// `glue_ctx`: Some(cut) when building a referral for `cut`.
-    fn target_addresses(&self, out: &mut BTreeMap<CanonRr, (u32, u32)>, target: &[u8], referral_cut: Option<&[u8]>) {
+    fn target_addresses(&self, catalog: &[RefZone], out: &mut BTreeMap<CanonRr, (u32, u32)>, target: &[u8], referral_cut: Option<&[u8]>) {
         if !self.in_zone(target) {
-            return; // nothing known in this zone; other zones are not consulted
+            // Nothing is known in this zone. The statement speaks of in-zone
+            // processing, but does not forbid adding what another zone of
+            // the catalog holds authoritatively: accepted, never required.
+            if let Some(z) = best_zone(catalog, target, self.class) {
+                if let (LookAddrs::Found { a, aaaa, .. }, _) = z.lookup_addrs(target, false, false) {
+                    if let Some(a) = a {
+                        self.add_addrs(out, target, &a, t::A, Need::May);
+                    }
+                    if let Some(aaaa) = aaaa {
+                        self.add_addrs(out, target, &aaaa, t::AAAA, Need::May);
+                    }
+                }
+            }
+            return;
         }
         // Where does the name live?
         let (auth, _) = self.lookup_addrs(target, false, false);
@@ -402,22 +415,22 @@ impl RefZone {
     }
 
     /// Additional-section processing for an answer RRset.
-    fn answer_additional(&self, typ: u16, set: &RRset, out: &mut BTreeMap<CanonRr, (u32, u32)>) -> Result<(), ()> {
+    fn answer_additional(&self, catalog: &[RefZone], typ: u16, set: &RRset, out: &mut BTreeMap<CanonRr, (u32, u32)>) -> Result<(), ()> {
         let Some(off) = target_offset(typ) else { return Ok(()) };
         for rd in &set.rdatas {
             let target = rd.get(off..).and_then(whole_name).ok_or(())?;
-            self.target_addresses(out, &target, None);
+            self.target_addresses(catalog, out, &target, None);
         }
         Ok(())
     }
 
-    fn referral_expect(&self, cut: &[u8], ns: &RRset, mut e: Expect) -> Expect {
+    fn referral_expect(&self, catalog: &[RefZone], cut: &[u8], ns: &RRset, mut e: Expect) -> Expect {
         for rd in &ns.rdatas {
             e.authority.push(canon(cut, t::NS, self.class, ns.ttl, rd));
         }
         for rd in &ns.rdatas {
             let Some(target) = whole_name(rd) else { return servfail("servfail-bad-ns-rdata") };
-            self.target_addresses(&mut e.additional, &target, Some(cut));
+            self.target_addresses(catalog, &mut e.additional, &target, Some(cut));
         }
         e.kind.push_str("referral");
         e
@@ -451,9 +464,11 @@ impl RefZone {
     }
 
     /// Answers a query whose QNAME belongs to this zone.
-    pub fn resolve(&self, qname: &[u8], qtype: u16) -> Expect {
+    /// `catalog`: all zones served (only used to accept, never to require,
+    /// additional data held by other zones).
+    pub fn resolve(&self, catalog: &[RefZone], qname: &[u8], qtype: u16) -> Expect {
         if qtype == t::ANY {
-            return self.resolve_any(qname);
+            return self.resolve_any(catalog, qname);
         }
         let mut e = Expect::default();
         let mut cur: WName = qname.to_vec();
@@ -477,7 +492,7 @@ impl RefZone {
                     for rd in &rrset.rdatas {
                         e.answer.push(canon(&cur, qtype, self.class, rrset.ttl, rd));
                     }
-                    if self.answer_additional(qtype, &rrset, &mut e.additional).is_err() {
+                    if self.answer_additional(catalog, qtype, &rrset, &mut e.additional).is_err() {
                         return servfail("servfail-bad-target-rdata");
                     }
                     e.kind.push_str(if sos.is_some() { "found-wild" } else { "found" });
@@ -500,7 +515,7 @@ impl RefZone {
                     visited.push(tl);
                     cur = target;
                 }
-                Look::Referral { cut, ns } => return self.referral_expect(&cut, &ns, e),
+                Look::Referral { cut, ns } => return self.referral_expect(catalog, &cut, &ns, e),
                 Look::NoRecords { sos } => {
                     return self.negative(e, false, if sos.is_some() { "nodata-wild" } else { "nodata" })
                 }
@@ -510,7 +525,7 @@ impl RefZone {
         }
     }
 
-    fn resolve_any(&self, qname: &[u8]) -> Expect {
+    fn resolve_any(&self, catalog: &[RefZone], qname: &[u8]) -> Expect {
         let mut e = Expect { kind: "any:".into(), ..Default::default() };
         match self.lookup_all(qname, false, false).0 {
             LookAll::Found { rrsets, sos } => {
@@ -526,7 +541,7 @@ impl RefZone {
                 e.kind.push_str(if sos.is_some() { "found-wild" } else { "found" });
                 e
             }
-            LookAll::Referral { cut, ns } => self.referral_expect(&cut, &ns, e),
+            LookAll::Referral { cut, ns } => self.referral_expect(catalog, &cut, &ns, e),
             LookAll::NxDomain => {
                 e.aa = true;
                 self.negative(e, true, "nxdomain")
@@ -538,15 +553,19 @@ impl RefZone {
 
 /// RFC 1034 §4.3.2 step 2: the zone that is the nearest ancestor of QNAME
 /// in QCLASS; none => REFUSED (not authoritative, no recursion).
-pub fn resolve_in_catalog(zones: &[RefZone], qname: &[u8], qtype: u16, qclass: u16) -> Expect {
+pub fn best_zone<'a>(zones: &'a [RefZone], name: &[u8], class: u16) -> Option<&'a RefZone> {
     let mut best: Option<&RefZone> = None;
     for z in zones {
-        if z.class == qclass && z.in_zone(qname) && best.map(|b| n_labels(&z.apex) > n_labels(&b.apex)).unwrap_or(true) {
+        if z.class == class && z.in_zone(name) && best.map(|b| n_labels(&z.apex) > n_labels(&b.apex)).unwrap_or(true) {
             best = Some(z);
         }
     }
-    match best {
-        Some(z) => z.resolve(qname, qtype),
+    best
+}
+
+pub fn resolve_in_catalog(zones: &[RefZone], qname: &[u8], qtype: u16, qclass: u16) -> Expect {
+    match best_zone(zones, qname, qclass) {
+        Some(z) => z.resolve(zones, qname, qtype),
         None => Expect { rcode: rc::REFUSED, kind: "refused".into(), ..Default::default() },
     }
 }
